@@ -262,6 +262,20 @@ fn request_stream(tier: Tier, seed: u64) -> (Vec<Request>, Vec<(&'static str, us
             }
         }
     }
+    // every letter whose lower-casing changes its UTF-8 length, at every position of a run of upper-case
+    // letters that is 20 to 24 bytes long - around the inline capacity of the small-string type, which only
+    // some feature sets use - as checksum algorithm and as nuget / pypi name
+    for c in crate::chars::length_changing_alphabet() {
+        for len in 20..=24usize {
+            for pos in 0..=len {
+                let name: String = format!("{}{c}{}", "B".repeat(pos), "B".repeat(len - pos));
+                let enc: String = name.bytes().map(|b| format!("%{b:02X}")).collect();
+                v.push(Request::Parse(format!("pkg:generic/x?checksum={enc}:00ff")));
+                v.push(Request::Parse(format!("pkg:nuget/{enc}@1")));
+                v.push(Request::Parse(format!("pkg:pypi/{enc}@1")));
+            }
+        }
+    }
     parts.push(("token-language", v.len()));
     // the random parts are generated in parallel, each from its own fixed seed, and concatenated
     // in a fixed order: the stream is a function of (tier, seed) only
